@@ -10,6 +10,7 @@ modulus, raw 256-bit functions and every scalar multiplication get the whole of 
 import ctypes
 import os
 import sys
+import time
 
 from ..ref import sm2 as E
 from ..ref import z256 as Z
@@ -48,17 +49,17 @@ def plan(tier, seed):
     for fl in ('asan', 'asan-amd64'):
         nint = 3 if quick else 12
         for c in range(nint):
-            units.append({'kind': 'int', 'flavour': fl, 'lo': c, 'step': nint, 'rand': 400 if quick else 30000,
-                          'weight': 1 if quick else 6})
+            units.append({'kind': 'int', 'flavour': fl, 'lo': c, 'step': nint, 'rand': 400 if quick else 6000,
+                          'weight': 1 if quick else 3})
         nb = 1 if quick else 4
         for c in range(nb):
             units.append({'kind': 'booth', 'flavour': fl, 'rand': 60 if quick else 1200, 'part': c, 'weight': 1 if quick else 4})
         nm = 3 if quick else 12
         for c in range(nm):
-            units.append({'kind': 'modp', 'flavour': fl, 'lo': c, 'step': nm, 'rand': 400 if quick else 16000,
-                          'heavy': 60 if quick else 1500, 'weight': 2 if quick else 8})
-            units.append({'kind': 'modn', 'flavour': fl, 'lo': c, 'step': nm, 'rand': 400 if quick else 12000,
-                          'heavy': 50 if quick else 1200, 'weight': 2 if quick else 8})
+            units.append({'kind': 'modp', 'flavour': fl, 'lo': c, 'step': nm, 'rand': 400 if quick else 5000,
+                          'heavy': 60 if quick else 800, 'weight': 2 if quick else 6})
+            units.append({'kind': 'modn', 'flavour': fl, 'lo': c, 'step': nm, 'rand': 400 if quick else 4000,
+                          'heavy': 50 if quick else 600, 'weight': 2 if quick else 6})
         npt = 3 if quick else 12
         for c in range(npt):
             units.append({'kind': 'point', 'flavour': fl, 'part': c, 'bases': 2 if quick else 8, 'weight': 2 if quick else 6})
@@ -112,6 +113,7 @@ class Env(object):
         self.b64 = ctx.buf(64)
         self.h64 = ctx.buf(64)
         self.h128 = ctx.buf(128)
+        self.rep = {}
 
     def close(self):
         for b in self.z + [self.w] + self.pt + self.af + [self.tab, self.b32, self.b64, self.h64, self.h128]:
@@ -138,7 +140,17 @@ class Env(object):
         ctypes.memmove(self.af[i].ptr, raw, 64)
 
     def ok(self, cond, fn, cls, **d):
-        return self.ctx.check(cond, '%s:%s' % (fn, cls), **d)
+        key = '%s:%s' % (fn, cls)
+        if not cond:
+            # list a few occurrences per class and unit; count the rest (the core keeps 50 violations per unit,
+            # a flood of one class must not crowd out another)
+            n = self.rep.get(key, 0)
+            self.rep[key] = n + 1
+            if n >= 4:
+                self.ctx.ok(1)
+                self.ctx.stat('repeat_violations_not_listed:' + key)
+                return False
+        return self.ctx.check(cond, key, **d)
 
     def nt(self, *t):
         self.ctx.nontrivial(self.fl, *t)
@@ -401,6 +413,26 @@ def _mod_pairs(ctx, u, m):
         else:
             b = rng.choice(sp)
         pairs.append((a, b))
+    # Montgomery products whose value before the final conditional subtraction lies in [m, 2^256): a window of
+    # relative size 2^-32 that random operands never reach.  a*b*R^-1 = v (mod m) with v < 2^256 - m.
+    nwin = max(40, u['rand'] // 6)
+    small = [0, 1, 2, 3, R - m - 1, R - m - 2, (R - m) >> 1, 0xffffffff, 1 << 64, 1 << 128, (1 << 192) + 1]
+    for i in range(nwin):
+        v = small[i] if i < len(small) else rng.randrange(R - m)
+        if i % 3 == 2:
+            # a square: a*a*R^-1 = v  (m = 3 mod 4 for both p and n)
+            t = v * R % m
+            a = pow(t, (m + 1) // 4, m)
+            if a * a % m != t:
+                continue
+            if i % 2:
+                a = (m - a) % m
+            pairs.append((a, a))
+        else:
+            a = rng.choice(sp[3:]) if i % 3 == 1 else rng.randrange(1, m)
+            if a == 0:
+                continue
+            pairs.append((a, v * R * pow(a, -1, m) % m))
     return sp, pairs
 
 
@@ -571,7 +603,7 @@ def judge_point(env, buf, want, fn, cls='wrong-result', getxy=True, **d):
     raw = ctypes.string_at(buf.ptr if hasattr(buf, 'ptr') else buf, 96)
     kind, val, reduced = Z.decode_point(raw)
     if not reduced:
-        ctx.stat('info_result_coordinate_not_below_p')
+        ctx.stat('info_result_coordinate_not_below_p:' + fn)
     if want is INF:
         good = kind == 'inf'
     else:
@@ -1069,7 +1101,11 @@ def u_scal(ctx, u):
     env = Env(ctx)
     rng = ctx.rng
     part, parts = u['part'], u['parts']
-    ks = sorted(set(Z.window_scalars() + Z.specials() + [N - 70, N - 71, N - 69, N + 70, 2 * N - R, R - N, (N - 70) // 2]))
+    ks = set(Z.window_scalars() + Z.specials() + [N - 70, N - 71, N - 69, N + 70, 2 * N - R, R - N, (N - 70) // 2])
+    # every scalar for which a width-7 comb degenerates to a doubling, derived from the recoding model
+    for lo, hi, i, d in Z.comb_exceptional_scalars(7):
+        ks.update(k for k in (lo - 1, lo, (lo + hi) // 2, hi, hi + 1) if 0 <= k < R)
+    ks = sorted(ks)
     ks = ks[part::parts] + [rand256(rng) for _ in range(u['rand'])]
     for v in range(2):
         base, braw, bname = _pick_base(rng, v + 2 * part)
@@ -1109,5 +1145,11 @@ def u_scal(ctx, u):
 
 
 def run_unit(ctx, u):
+    t0 = time.process_time()
+    _run_unit(ctx, u)
+    ctx.stat('info_cpu_s:' + u['kind'], round(time.process_time() - t0, 2))
+
+
+def _run_unit(ctx, u):
     {'int': u_int, 'booth': u_booth, 'modp': u_modp, 'modn': u_modn, 'point': u_point, 'misc': u_misc,
      'dense': u_dense, 'scal': u_scal}[u['kind']](ctx, u)
